@@ -59,6 +59,12 @@ def run(e: Engine, rep: Report):
              'every attribute its getter reads (assign-then-read gives the '
              'assigned value)')
     g9(e, rep, 'G9')
+    rep.rule('G10', 'message lines end at LF and nowhere else: the '
+             'functions of the data reader cut the stream with a pattern '
+             'whose last item is a literal LF, never with splitlines() / '
+             'a universal-newline splitter (those also cut at a bare CR, '
+             'so `x<CR>.<CRLF>` inside a body would end the message)')
+    g10(e, rep, 'G10')
     rep.floor('G1', 6, 'buffer / socket access sites')
 
 
@@ -945,3 +951,72 @@ def g9(e: Engine, rep: Report, rule: str = 'G9'):
         rep.ok(rule, IOC, 'the receive buffer is a plain attribute',
                reason='no property stands between its writers and readers',
                nontrivial=False)
+
+
+# --------------------------------------------------------------------- G10
+UNIVERSAL_SPLITTERS = {'splitlines', 'readlines', 'readline'}
+
+
+def g10(e: Engine, rep: Report, rule: str):
+    import re as _re
+    from .. import regexast as rx
+    sc = rx._consts()
+    n = 0
+    mod = 'slimta.smtp.datareader'
+    for f in e.p.functions.values():
+        if f.module.name != mod:
+            continue
+        rep.functions.add(f.qname)
+        for c in walk_own(f.node):
+            if not (isinstance(c, ast.Call) and
+                    isinstance(c.func, ast.Attribute)):
+                continue
+            if c.func.attr in UNIVERSAL_SPLITTERS:
+                n += 1
+                rep.evaluations += 1
+                rep.check(False, rule, f.qname,
+                          '`%s`' % ' '.join(ast.unparse(c).split())[:50],
+                          '%s() cuts at a bare CR as well as at LF / CRLF: '
+                          'a body line `x<CR>.<CRLF>` is split into two '
+                          'lines, the second of which is the end-of-data '
+                          'mark - the message ends early and the rest of '
+                          'the body is executed as commands'
+                          % c.func.attr, loc=f.loc(c))
+            if c.func.attr in ('find', 'index', 'split', 'partition',
+                               'rfind', 'rindex', 'rpartition') and \
+                    c.args and isinstance(c.args[0], ast.Constant) and \
+                    c.args[0].value in (b'\n', b'\r\n'):
+                n += 1
+                rep.evaluations += 1
+                rep.ok(rule, f.qname, 'line cutter `%s`' % ' '.join(
+                    ast.unparse(c).split())[:40], loc=f.loc(c),
+                    reason='cuts at a literal LF')
+            if c.func.attr in ('finditer', 'findall', 'split') and \
+                    isinstance(c.func.value, ast.Name):
+                got = rx.module_pattern(e, mod, c.func.value.id)
+                if got is None:
+                    continue
+                n += 1
+                rep.evaluations += 1
+                items = [it for it in rx.parse(got[0], got[1])
+                         if it[0] != sc.AT]
+                last = items[-1] if items else None
+                ok = last is not None and last[0] == sc.LITERAL and \
+                    last[1] == 10
+                if c.func.attr == 'split':
+                    # a separator pattern: may not match a bare CR
+                    ok = last is not None and 13 not in (
+                        rx.charset(last, got[1]) or {13}) or ok
+                rep.check(ok, rule, f.qname,
+                          'line cutter %s ends in LF' % c.func.value.id,
+                          'the pattern %s (%r) the stream is cut with does '
+                          'not end in a literal LF: lines can end somewhere '
+                          'else than the client\'s line ends, so the '
+                          'end-of-data mark is found (or missed) inside a '
+                          'line' % (c.func.value.id, got[0]), loc=f.loc(c),
+                          reason='last item of the pattern is LF')
+    if n < 1:
+        rep.unknown(rule, mod, 'line cutter of the data reader',
+                    'cannot see how the data reader cuts the stream into '
+                    'lines (no module pattern used with finditer / '
+                    'findall / split)', loc=None)
